@@ -121,6 +121,9 @@ func generalPlan(tier string, faults bool) []PlanItem {
 		PlanItem{equalPrioTakeover(scnStop("stop/stopctx-del-takeover-equal-K1", K1, Item{Do: "stopctx", DeleteKey: true}, "A", "B")), d},
 		// shutdowns that fail: the promotion callback needs 300 ms to wind down but the
 		// shutdown waits 100 ms only; the context handed to StopWithContext has expired
+		// the context passed to Start is cancelled ("the election will stop gracefully")
+		PlanItem{scnCtxCancel("ctx-cancel-K1", K1, false), d},
+		PlanItem{scnCtxCancel("ctx-cancel-then-stop-K1", K1, true), d},
 		PlanItem{failingStop(scnStop("stop/stopctx+wait+to100ms", K1, Item{Do: "stopctx", WaitForDemote: true, Timeout: 100 * ms}, "A", "B")), d},
 		PlanItem{failingStop(scnStop("stop/stopctx+expired-ctx", K1, Item{Do: "stopctx", CtxTimeout: -1}, "A", "B")), d})
 	items = append(items,
@@ -395,4 +398,22 @@ func scnPreemptThenRelease(name string, k kfn) *Scenario {
 		Item{At: tTick + 40*ms, Actor: "lifeB", Do: "stopctx", Inst: "B", DeleteKey: true})
 	s.Horizon = tTick + 5*s.H
 	return s.faultFree()
+}
+
+// ctx-cancel: A leads, B follows; the context that was passed to A's Start is cancelled
+// (the explorer moves the cancellation to every choice point); optionally Stop is called
+// 150 ms later, as an application that cancels first and cleans up afterwards would do.
+func scnCtxCancel(name string, k kfn, thenStop bool) *Scenario {
+	s := k(&Scenario{Name: name})
+	s.Insts = insts("A", "B")
+	s.Script = starts("A", "B")
+	t := 2*s.H + 37*ms
+	s.Script = append(s.Script, Item{At: t, Actor: "lifeA", Do: "cancelctx", Inst: "A"})
+	if thenStop {
+		s.Script = append(s.Script, Item{At: t + 150*ms, Actor: "lifeA", Do: "stop", Inst: "A"})
+	}
+	s.Horizon = t + s.TTL + 900*ms
+	s = s.faultFree()
+	s.SplitApply = true
+	return s
 }
